@@ -1,8 +1,59 @@
-(* C18 -- placeholder until Proofs/C18.v lands. *)
-From GV Require Import Base.Prelude Model.Geom Model.C17 Model.C18.
+(* C18 -- property theorems only. *)
+From Coq Require Import Permutation Reals.
+From GV Require Import Base.Prelude Model.C01 Model.Geom Model.C17 Model.C18 Proofs.C18 Proofs.C18R.
+Open Scope Z_scope.
+
+(* bonds between wrapped positions: each component within half a cell and congruent to the difference *)
+Theorem C18_bond_wrap_range : forall D a b, 0 <= a < D -> 0 <= b < D -> - D <= 2 * bw D (b - a) <= D.
+Proof. exact bw_range. Qed.
+Print Assumptions C18_bond_wrap_range.
+Theorem C18_bond_wrap_congr : forall D d, exists k, -1 <= k <= 1 /\ bw D d = d + k * D.
+Proof. exact bw_congr_sharp. Qed.
+Print Assumptions C18_bond_wrap_congr.
+
+(* bond length = periodic centre-satellite distance when the bond is well below half the cell width *)
+Theorem C18_bond_is_min_image : forall M r2 D K cent sat, radius_ok M r2 D = true -> window_ok M K = true ->
+  0 < D -> 0 <= K -> 0 < snd r2 -> wrapped3 D cent -> wrapped3 D sat ->
+  min_image_d2 D (gram_of M) K (vsub3 sat cent) * snd r2 < fst r2 ->
+  qf (gram_of M) (bond D cent sat) = min_image_d2 D (gram_of M) K (vsub3 sat cent).
+Proof. exact bond_is_min_image. Qed.
+Print Assumptions C18_bond_is_min_image.
+
+(* symmetrising with a point group (closed under transpose = inverse for orthogonal operations) yields for every
+   vector exactly its images under the group, one per operation *)
+Theorem C18_symmetrize_is_images : forall ops vs, NoDup ops -> closed_under_transpose ops = true ->
+  Permutation (symmetrize ops vs) (flat_map (images ops) vs).
+Proof. exact symmetrize_perm. Qed.
+Print Assumptions C18_symmetrize_is_images.
 Theorem C18_symmetrize_count : forall ops vs, length (symmetrize ops vs) = (length vs * length ops)%nat.
-Proof.
-  intros ops vs. unfold symmetrize. induction vs as [|v vs IH]; [reflexivity|].
-  cbn [flat_map]. rewrite app_length, map_length, IH. reflexivity.
-Qed.
+Proof. exact symmetrize_count. Qed.
 Print Assumptions C18_symmetrize_count.
+Theorem C18_symmetrize_preserves_length : forall R v, orthogonal R = true ->
+  dot3 (mulv (tr R) v) (mulv (tr R) v) = dot3 v v.
+Proof. exact symmetrize_preserves_length. Qed.
+Print Assumptions C18_symmetrize_preserves_length.
+
+(* a linear transform applies the matrix to every vector *)
+Theorem C18_transform_nth : forall A vs i, nth_error (transform A vs) i = option_map (mulv A) (nth_error vs i).
+Proof. exact transform_nth_error. Qed.
+Print Assumptions C18_transform_nth.
+
+(* autocorrelation (definition): lag 0 is the sum of squared lengths, the normalised value is bounded by one in
+   absolute value and invariant under scaling and orthogonal transforms *)
+Theorem C18_autocorr_bound : forall vs tau, - autocorr_num vs 0 <= autocorr_num vs tau <= autocorr_num vs 0.
+Proof. exact autocorr_bound. Qed.
+Print Assumptions C18_autocorr_bound.
+Theorem C18_autocorr_scale : forall vs k tau, autocorr_num (map (vscale3 k) vs) tau = k * k * autocorr_num vs tau.
+Proof. first [exact autocorr_scale | intros; eapply autocorr_scale]. Qed.
+Print Assumptions C18_autocorr_scale.
+
+(* normalising yields unit vectors with unchanged directions (real numbers) *)
+Open Scope R_scope.
+Theorem C18_normalised_unit : forall x y z, 0 < norm3 x y z -> let n := norm3 x y z in
+  (x/n)*(x/n) + (y/n)*(y/n) + (z/n)*(z/n) = 1.
+Proof. exact normalised_unit. Qed.
+Print Assumptions C18_normalised_unit.
+Theorem C18_normalised_direction : forall x y z, 0 < norm3 x y z -> let n := norm3 x y z in
+  0 < 1/n /\ x/n = (1/n)*x /\ y/n = (1/n)*y /\ z/n = (1/n)*z.
+Proof. exact normalised_positive_multiple. Qed.
+Print Assumptions C18_normalised_direction.
